@@ -39,6 +39,11 @@ ns.inner.g = _rec(3)
 def boom(*args, **kwargs):
     raise ValueError("boom")
 
+# a callable whose signature cannot be introspected (as for many callables implemented in C:
+# datetime.timedelta, dict, int, collections.deque ...): it is simply called
+nosig = _rec(8)
+nosig.__signature__ = "not introspectable"
+
 notcallable = 5
 '''
 
@@ -48,7 +53,7 @@ f1 = _rec(1)
 '''
 
 NAMES = {PKG + ".f0": 0, PKG + ".sub.f1": 1, PKG + ".K": 2, PKG + ".ns.inner.g": 3,
-         PKG + ".boom": 4, PKG + ".notcallable": 5, PKG: 6, PKG + ".sub": 7}
+         PKG + ".boom": 4, PKG + ".notcallable": 5, PKG: 6, PKG + ".sub": 7, PKG + ".nosig": 8}
 FAILS = [4, 5, 6, 7]
 UNRESOLVABLE = ["vh_nomodule_xyz.thing", PKG + ".nope", PKG + ".sub.nope", PKG + ".ns.nope.g"]
 
